@@ -131,6 +131,10 @@ int read_task_txt_file(struct uftrace_session_link *sess, char *dirname, char *s
 
 	pr_dbg("reading %s file\n", fname);
 	while (getline(&line, &sz, fp) >= 0) {
+		/* a bare tag (cut file): line + 5 would be past the end of the line */
+		if (strlen(line) < 5)
+			continue;
+
 		if (!strncmp(line, "TASK", 4)) {
 			num = sscanf(line + 5, "timestamp=%lu.%lu tid=%d pid=%d", &sec, &nsec,
 				     &tmsg.tid, &tmsg.pid);
@@ -160,6 +164,9 @@ int read_task_txt_file(struct uftrace_session_link *sess, char *dirname, char *s
 			if (pos == NULL)
 				goto out;
 
+			if (pos[8] == '\0')
+				goto out;
+
 			exename = pos + 8 + 1; // skip double-quote
 			pos = strrchr(exename, '\"');
 			if (pos)
@@ -186,6 +193,9 @@ int read_task_txt_file(struct uftrace_session_link *sess, char *dirname, char *s
 
 			pos = strstr(line, "libname=");
 			if (pos == NULL)
+				goto out;
+
+			if (pos[8] == '\0')
 				goto out;
 
 			exename = pos + 8 + 1; // skip double-quote
